@@ -364,4 +364,158 @@ class Histories(SubCheck):
         c03.Random().selftest(env)
 
 
-SUBCHECKS = [Histories()]
+class ConcurrentContract(SubCheck):
+    """The same contract under 2-3 clients (own DjangoCache objects on one directory, or one object shared by the threads)
+    under generated statement-level schedules: every call returns what some one-at-a-time order of the calls returns
+    (linearizability against a dictionary), including the calls that answer with ValueError (incr/decr of a missing key) or
+    False (delete of a missing key, add of a present one) - those end their transaction with a rollback - and no call
+    surfaces a database error: with the default retry=True a busy shard is waited for."""
+
+    name = 'concurrent_contract'
+
+    def examples(self, tier):
+        return 60 if tier == 'quick' else 3000
+
+    def strategy(self, tier):
+        def op(client, idx):
+            k = st.sampled_from(['x', 'n'])
+            v = st.sampled_from([100 * client + idx, ('B', 16 * client + idx + 1)])
+            return st.one_of(
+                st.tuples(st.just('set'), k, v),
+                st.tuples(st.just('add'), k, v),
+                st.tuples(st.just('get'), k),
+                st.tuples(st.just('incr'), st.just('n'), st.sampled_from([1, 2])),
+                st.tuples(st.just('incr'), st.just('n'), st.sampled_from([1, 2])),
+                st.tuples(st.just('decr'), st.just('n'), st.just(1)),
+                st.tuples(st.just('incr'), st.just('nope'), st.just(1)),  # never present: ValueError
+                st.tuples(st.just('delete'), st.sampled_from(['x', 'n', 'nope'])),
+                st.tuples(st.just('has_key'), k),
+                st.tuples(st.just('touch'), k),
+            )
+
+        @st.composite
+        def case(draw):
+            n = draw(st.integers(2, 3))
+            progs = [[draw(op(c, i)) for i in range(draw(st.integers(1, 4)))] for c in range(n)]
+            init = {}
+            if draw(st.booleans()):
+                init['n'] = 10
+            if draw(st.booleans()):
+                init['x'] = draw(st.sampled_from([7, ('B', 250)]))
+            schedule = draw(st.lists(st.tuples(st.integers(0, n - 1), st.one_of(st.integers(1, 8), st.sampled_from([12, 16, 24]))), max_size=14))
+            return {'progs': progs, 'init': init, 'schedule': schedule, 'shards': draw(st.sampled_from([1, 2])), 'mode': draw(st.sampled_from(['own', 'own', 'shared']))}
+
+        return case()
+
+    def execute(self, case, env):
+        from diskcache.djangocache import DjangoCache
+
+        from ..conc import fmt, mark_interleaved, run_scheduled
+        from ..sched import linearize, overlaps
+
+        n = len(case['progs'])
+        mk = lambda v: bytes([v[1]]) * 40000 if type(v) is tuple else v  # ('B', fill): a value stored in a file
+
+        def unmk(v):
+            if type(v) is bytes:
+                return ('B', v[0]) if v and v == bytes([v[0]]) * 40000 else ('MIXED', len(v))
+            return v
+
+        def open_clients(path):
+            params = {'SHARDS': case['shards'], 'DATABASE_TIMEOUT': 0}
+            objs = [DjangoCache(path, params) for _ in range(1 if case['mode'] == 'shared' else n)]
+            for k, v in case['init'].items():
+                objs[0].set(k, mk(v), None)
+            return (objs * n if case['mode'] == 'shared' else objs), objs
+
+        def warm(dj):
+            for shard in dj._cache._shards:
+                shard._sql
+
+        def do_op(dj, op):
+            name = op[0]
+            try:
+                if name == 'set':
+                    return ('ok', dj.set(op[1], mk(op[2]), None))
+                if name == 'add':
+                    return ('ok', dj.add(op[1], mk(op[2]), None))
+                if name == 'get':
+                    return ('ok', unmk(dj.get(op[1], 'MISS')))
+                if name == 'incr':
+                    return ('ok', dj.incr(op[1], op[2]))
+                if name == 'decr':
+                    return ('ok', dj.decr(op[1], op[2]))
+                if name == 'delete':
+                    return ('ok', dj.delete(op[1]))
+                if name == 'has_key':
+                    return ('ok', dj.has_key(op[1]))
+                if name == 'touch':
+                    return ('ok', dj.touch(op[1], None))
+                if name == 'len':
+                    return ('ok', len(dj._cache))
+            except Exception as exc:
+                return ('exc', type(exc).__name__)
+            raise HarnessError('unknown op %r' % (op,))
+
+        def apply(state, call):
+            d = dict(state)
+            op, res = call.op, call.result
+            name, k = op[0], (op[1] if len(op) > 1 else None)
+            if name == 'set':
+                d[k] = op[2]
+                exp = ('ok', True)
+            elif name == 'add':
+                exp = ('ok', k not in d)
+                d.setdefault(k, op[2])
+            elif name == 'get':
+                exp = ('ok', d.get(k, 'MISS'))
+            elif name in ('incr', 'decr'):
+                if k not in d:
+                    exp = ('exc', 'ValueError')
+                elif type(d[k]) is not int:
+                    return state, res[0] == 'exc'  # a value that is no number: some error, nothing changes
+                else:
+                    d[k] = d[k] + (op[2] if name == 'incr' else -op[2])
+                    exp = ('ok', d[k])
+            elif name == 'delete':
+                exp = ('ok', k in d)
+                d.pop(k, None)
+            elif name in ('has_key', 'touch'):
+                exp = ('ok', k in d)
+            elif name == 'len':
+                exp = ('ok', len(d))
+            else:
+                raise HarnessError('model: unknown op %r' % (op,))
+            return tuple(sorted(d.items(), key=repr)), exp == res
+
+        finals = [('get', 'x'), ('get', 'n'), ('get', 'nope'), ('len',)]
+        calls, sched = run_scheduled(env, case['progs'], case['schedule'], open_clients, do_op, 'C19', warm=warm, final_ops=finals, max_steps=20000)
+        if sched.limit_hit:
+            return {'nontrivial': False, 'classes': ['step-limit']}
+        mark_interleaved(calls, sched.trace)
+        for c in calls:
+            if c.result[0] == 'exc' and c.result[1] not in ('ValueError', 'TypeError'):
+                raise Violation('C19/concurrent/unexpected-exception/%s' % c.result[1], 'call %r raised %s (retry is on by default: a busy shard is waited for)\n%s' % (c, c.result[1], fmt(calls)))
+            if c.result[0] == 'ok' and type(c.result[1]) is tuple and c.result[1][0] == 'MIXED':
+                raise Violation('C19/concurrent/torn-value', 'call %r\n%s' % (c, fmt(calls)))
+        init_state = tuple(sorted(case['init'].items(), key=repr))
+
+        def skippable(c):
+            # (the miss a lookup may report while the same key is being written: tolerated by C05 for the underlying cache)
+            return c.op[0] in ('get', 'has_key') and c.result in (('ok', 'MISS'), ('ok', False)) and any(
+                o is not c and o.client != c.client and o.op[0] in ('set', 'add', 'incr', 'decr', 'delete', 'touch') and o.op[1] == c.op[1] and overlaps(o, c) for o in calls
+            )
+
+        if linearize(calls, init_state, apply, lambda s: s, skippable) is None:
+            raise Violation('C19/concurrent/not-linearizable', 'no one-at-a-time order of these calls explains their results (initial %r, mode %s, %d shard(s)):\n%s' % (init_state, case['mode'], case['shards'], fmt(calls)))
+        rolled_back = any(c.result == ('exc', 'ValueError') or (c.op[0] == 'delete' and c.result == ('ok', False)) for c in calls if c.client >= 0)
+        inter = any(c.interleaved for c in calls)
+        return {'nontrivial': rolled_back and inter, 'classes': ['mode=' + case['mode'], 'shards=%d' % case['shards']] + (['after-refused-call'] if rolled_back else [])}
+
+    def selftest(self, env):
+        from ..conc import io_selftest
+
+        io_selftest(env)
+
+
+SUBCHECKS = [Histories(), ConcurrentContract()]
